@@ -8,19 +8,12 @@ package claim
 import (
 	"context"
 
-	"k8s.io/apimachinery/pkg/runtime/schema"
-
 	"github.com/crossplane/crossplane-runtime/pkg/resource/unstructured/claim"
 	"github.com/crossplane/crossplane-runtime/pkg/resource/unstructured/composite"
 
 	"github.com/crossplane/crossplane/internal/names"
 	zz "github.com/crossplane/crossplane/internal/zzverif"
 	"github.com/crossplane/crossplane/internal/zzverif/kube"
-)
-
-var (
-	zzClaimGVK = schema.GroupVersionKind{Group: "example.org", Version: "v1", Kind: "Claim"}
-	zzXRGVK    = schema.GroupVersionKind{Group: "example.org", Version: "v1", Kind: "XR"}
 )
 
 // The partition of fields, written out independently of the xcrd tables.
